@@ -20,6 +20,10 @@ def run(ck, tier):
     F = factsmod.Facts("ws")
     from . import influence as _infl
     _infl.run(ck, F, 'C02')
+    from . import mustpass as _mp
+    _mp.run(ck, F, 'C02')
+    from . import c12x
+    c12x.run(ck, F, rule="C02.ree-coordinates")
     from . import c02x
     c02x.run(ck, F)
     ck.rule("C02.equal-total", "arrow_data::equal::equal_values routes every DataType constructor to a comparison implementation", floor=41)
